@@ -23,7 +23,8 @@ empty bucket):
   nothing is ever pending -, then a bulk insert that FAILS inside the engine and that the caller survives (kind
   "stale": through the Bucket object of a bucket that was deleted meanwhile; "missing": through a Bucket built
   for an id that never existed; "big-id": a list holding one event that carries the id 2**63, which no SQLite
-  INTEGER holds), then further single inserts, still unread; only then the listing and the lookups.  On the
+  INTEGER holds; "missing-single": a SINGLE insert through a Bucket built for an id that never existed), then
+  further single inserts, still unread; only then the listing and the lookups.  On the
   unchanged tree each fault leaves every back end as it was (memory / peewee KeyError, sqlite IntegrityError;
   2**63: memory returns, sqlite / peewee OverflowError).  Oracle: every acknowledged id still names its event
   (listing and lookup) and no id was handed out twice.  The failing call is the fault, not an operation of the
@@ -37,7 +38,7 @@ from . import c01 as base
 from . import store_hist as sh
 
 HIST_KINDS = ("del", "rep", "rlast", "ups", "other", "reset", "alias", "unread")
-FAULTS = ("stale", "missing", "big-id")
+FAULTS = ("stale", "missing", "big-id", "missing-single")
 
 
 def is_history(steps):
@@ -412,7 +413,7 @@ def unread_step(env, si, arg, fails):
         handle, _ = record([0, 3, base.META_W], lambda: ds.create_bucket("gone", "s1", "s1", "s1", created=base.CREATED),
                            lambda r: [5, 3, base.META_W] if env.backend == "sqlite" else [0])
         record([2, 3], lambda: ds.delete_bucket("gone"), lambda r: [0])
-    elif arg["fault"] == "missing":
+    elif arg["fault"] in ("missing", "missing-single"):
         handle = Bucket(ds, "never-existed")
     acked = []
 
@@ -435,6 +436,8 @@ def unread_step(env, si, arg, fails):
         if arg["fault"] == "big-id":
             big = Event(id=2 ** 63, timestamp=filler.timestamp, duration=filler.duration, data={"big": "id"})
             bucket.insert([big])
+        elif arg["fault"] == "missing-single":
+            handle.insert(filler)           # a SINGLE insert that fails inside the engine
         elif handle is not None:
             handle.insert([filler, base.mk_event({"t": T0 + 1000, "off": 0, "d": 1, "x": {"never": "stored"}})])
     except Exception:  # noqa: BLE001 -- the caller survives the failing batch and goes on
